@@ -886,9 +886,22 @@ def run_truthy_none(repo, res, modules):
         defaults = dict(zip([x.arg for x in pos[len(pos) - len(a.defaults):]], a.defaults))
         defaults.update({x.arg: d for x, d in zip(a.kwonlyargs, a.kw_defaults) if d is not None})
         optional = {p for p, d in defaults.items() if isinstance(d, ast.Constant) and d.value is None}
+        # locals taken from a keyword dict with a None default: x = kwargs.pop('x', None) / .get('x', None) / .get('x')
+        for nd in ast.walk(f.node):
+            if isinstance(nd, ast.Assign) and len(nd.targets) == 1 and isinstance(nd.targets[0], ast.Name) \
+                    and isinstance(nd.value, ast.Call) and isinstance(nd.value.func, ast.Attribute) and nd.value.func.attr in ('pop', 'get') \
+                    and (len(nd.value.args) == 1 and nd.value.func.attr == 'get'
+                         or len(nd.value.args) == 2 and isinstance(nd.value.args[1], ast.Constant) and nd.value.args[1].value is None):
+                optional.add(nd.targets[0].id)
         if not optional:
             continue
         numeric = set()
+        for nd in ast.walk(f.node):
+            # arithmetic on the value also shows that it is a number
+            if isinstance(nd, (ast.BinOp, ast.AugAssign)):
+                for side in ([nd.left, nd.right] if isinstance(nd, ast.BinOp) else [nd.target, nd.value]):
+                    if isinstance(side, ast.Name) and side.id in optional and isinstance(getattr(nd, 'op', None), (ast.Add, ast.Sub, ast.Mult, ast.Div)):
+                        numeric.add(side.id)
         for nd in ast.walk(f.node):
             if isinstance(nd, ast.Compare) and any(isinstance(o, (ast.Lt, ast.LtE, ast.Gt, ast.GtE)) for o in nd.ops):
                 for side in [nd.left] + nd.comparators:
@@ -972,3 +985,137 @@ def pathsum_spec(res, rule, f, ref_src, meaning, node=None, inline=None):
     if not ok:
         res.add(Finding(rule, f.fullname, meaning, f.loc, f'{f.qualname}: {meaning} - {diff}', {}))
     return ok
+
+
+def run_no_cached_property(repo, res, modules):
+    """Caches must be astropy lazyproperties: the reset machinery (`_lazyproperties`, `_reset_lazyproperties`, `__getitem__` slicing)
+    enumerates lazyproperty members only; a functools.cached_property survives every reset."""
+    n = 0
+    for f in repo.functions.values():
+        if f.module.name not in modules:
+            continue
+        bad = [d for d in f.decorators if d and d.split('.')[-1] == 'cached_property']
+        n += 1
+        res.oblige('DECOR', f'{f.qualname} is not a functools.cached_property', not bad, nontrivial=bool(f.decorators))
+        if bad:
+            res.add(Finding('DECOR', f.fullname, 'cached_property', f.loc,
+                            f'{f.qualname} is cached with functools.cached_property: the class\'s cache reset enumerates astropy '
+                            f'lazyproperties only, so this value survives parameter re-assignment and resets', {}))
+    return n
+
+
+def run_no_overwrite_input(repo, res, modules):
+    """`overwrite_input=True` (np.median/nanmedian/percentile...) lets numpy reorder the argument in place: a stored mesh or the
+    caller's image is scrambled although the returned statistic is right."""
+    n = 0
+    for m in sorted(modules):
+        mod = repo.modules.get(m)
+        if mod is None:
+            continue
+        # fine on a value computed in the call itself (np.median(np.abs(a - m), overwrite_input=True)); not on a name,
+        # attribute or subscript (may be a stored or caller array) and not in a partial()/table entry
+        bad = [k for c in ast.walk(mod.tree) if isinstance(c, ast.Call) for k in c.keywords
+               if k.arg == 'overwrite_input' and not (isinstance(k.value, ast.Constant) and k.value.value is False)
+               and not (c.args and isinstance(c.args[0], (ast.BinOp, ast.Call)) and unparse(c.func, 0).split('.')[-1] != 'partial')]
+        n += 1
+        res.oblige('NO-OVERWRITE', f'{m}: no statistic is computed with overwrite_input', not bad, nontrivial=True)
+        for k in bad:
+            res.add(Finding('NO-OVERWRITE', m, f'overwrite_input at line {k.value.lineno}', f'{mod.relpath}:{k.value.lineno}',
+                            f'{m}: `overwrite_input={unparse(k.value, 20)}` lets numpy partially sort its argument in place: cached '
+                            f'meshes / caller arrays are reordered', {}))
+    return n
+
+
+_IMG_BASES = re.compile(r'^(self\._(data|mask|error|background|convolved_data|segment_img)|data|error|mask|image|variance)(\.data)?$')
+
+
+def run_slice_kind(repo, res, modules):
+    """Image-sized arrays are cut with the LARGE slices of an overlap computation, aperture-mask sized arrays with the SMALL ones."""
+    n = 0
+    for f in repo.functions.values():
+        if f.module.name not in modules:
+            continue
+        for nd in ast.walk(f.node):
+            if isinstance(nd, ast.Subscript) and isinstance(nd.slice, ast.Name) and re.search(r'(^|_)(slc|slices?)_(sm|small|lg|large)$|^slices?_(small|large)$', nd.slice.id):
+                base = unparse(nd.value, 0)
+                small = nd.slice.id.endswith(('_sm', '_small'))
+                if _IMG_BASES.match(base):
+                    n += 1
+                    res.oblige('SLICE-KIND', f'{f.qualname}: image-sized `{base}` is cut with the large slices', not small, nontrivial=True)
+                    if small:
+                        st = enclosing_stmt(nd)
+                        res.add(Finding('SLICE-KIND', f.fullname, norm_stmt_text(st), f'{f.module.relpath}:{nd.lineno}',
+                                        f'{f.qualname}: `{unparse(nd, 50)}` cuts the image-sized array `{base}` with the slices of the '
+                                        f'small (aperture-mask) array: pixels of the image corner are used instead of the pixels under '
+                                        f'the aperture', {}))
+    return n
+
+
+def run_loopvar_used(repo, res, modules):
+    """`for v in (a, b): a.x = ...`: the body of a loop over a literal tuple of names uses the loop variable, not one of the names."""
+    n = 0
+    for f in repo.functions.values():
+        if f.module.name not in modules:
+            continue
+        for lp in ast.walk(f.node):
+            if isinstance(lp, ast.For) and isinstance(lp.target, ast.Name) and isinstance(lp.iter, (ast.Tuple, ast.List)) \
+                    and lp.iter.elts and all(isinstance(e, ast.Name) for e in lp.iter.elts):
+                names = {e.id for e in lp.iter.elts}
+                used = {x.id for b in lp.body for x in ast.walk(b) if isinstance(x, ast.Name)}
+                bad = lp.target.id not in used and (names & used)
+                n += 1
+                res.oblige('LOOPVAR', f'{f.qualname}: the loop over {sorted(names)} works on its loop variable', not bad, nontrivial=True)
+                if bad:
+                    res.add(Finding('LOOPVAR', f.fullname, norm_stmt_text(lp), f'{f.module.relpath}:{lp.lineno}',
+                                    f'{f.qualname}: the body of `for {lp.target.id} in {unparse(lp.iter, 50)}` never uses `{lp.target.id}` '
+                                    f'but uses {sorted(names & used)}: only one of the objects is treated, several times', {}))
+    return n
+
+
+def run_unravel(repo, res, modules):
+    """np.unravel_index(np.argmax(arr), S): S is the shape of the array the flat index was taken from."""
+    n = 0
+    for f in repo.functions.values():
+        if f.module.name not in modules:
+            continue
+        for c in ast.walk(f.node):
+            if isinstance(c, ast.Call) and unparse(c.func, 0).split('.')[-1] == 'unravel_index' and len(c.args) == 2 \
+                    and isinstance(c.args[0], ast.Call) and unparse(c.args[0].func, 0).split('.')[-1] in (
+                        'argmax', 'nanargmax', 'argmin', 'nanargmin') and c.args[0].args:
+                arr = c.args[0].args[0]
+                n += 1
+                ok = _safe_nf_expr(c.args[1]) == _safe_nf_expr(ast.Attribute(value=arr, attr='shape', ctx=ast.Load()))
+                res.oblige('UNRAVEL', f'{f.qualname}: `{unparse(c, 70)}` unravels with the shape of the searched array', ok, nontrivial=True)
+                if not ok:
+                    res.add(Finding('UNRAVEL', f.fullname, unparse(c, 90), f'{f.module.relpath}:{c.lineno}',
+                                    f'{f.qualname}: `{unparse(c, 90)}` unravels a flat index of `{unparse(arr, 30)}` with '
+                                    f'`{unparse(c.args[1], 30)}` instead of `{unparse(arr, 30)}.shape`: wrong (y, x) whenever the searched '
+                                    f'array was trimmed (e.g. at the image edge)', {}))
+    return n
+
+
+def run_cache_pure(repo, res, classes=None, modules=None, exempt=()):
+    """No method modifies in place the cached value of a (lazy)property of its class (alias summaries: a field-mutation site
+    whose field is a property name).  Slicing, resets and later reads all assume cached values stay what the getter returned."""
+    from .C10 import get_alias
+    d, _ft = get_alias(repo)
+    n = 0
+    for c in repo.classes.values():
+        if classes is not None and c.fullname not in classes:
+            continue
+        if modules is not None and c.module.name not in modules:
+            continue
+        lazies = {f.name for f in c.all_functions() if f.is_property and not f.is_setter}
+        if not lazies:
+            continue
+        for f in c.all_functions():
+            sm = d.summary(f)
+            bad = [(fld, s_) for fld, sites in sm.mutf.items() if fld in lazies for s_ in sites.values()
+                   if (s_.finfo.fullname, fld, norm_stmt_text(s_.stmt)) not in exempt]
+            n += 1
+            res.oblige('CACHE-PURE', f'{f.qualname} modifies no cached property value in place', not bad, nontrivial=bool(sm.mutf))
+            for fld, s_ in bad:
+                res.add(Finding('CACHE-PURE', s_.finfo.fullname, f'{fld}: {norm_stmt_text(s_.stmt)}', s_.loc,
+                                f'{f.qualname} modifies the cached value of `{c.name}.{fld}` in place ({s_.describe()}): the property then '
+                                f'reports something else than its getter returned, depending on the call history', {}))
+    return n
